@@ -32,6 +32,7 @@ type nativeResult struct {
 	Asserts      [][2]interface{} `json:"asserts"` // [label, ok]
 	Panic        string           `json:"panic"`
 	AssumeFailed bool             `json:"assume_failed"`
+	AssumeAt     string           `json:"assume_at"`
 	Hang         bool             `json:"hang"`
 	Witnesses    []string         `json:"witnesses"`
 }
@@ -139,8 +140,17 @@ func replayNative(p *Program, file string) replayOutcome {
 		return replayOutcome{false, err.Error() + ": " + tail}
 	}
 	r := res[0]
+	if rc.Expect == "assert" {
+		// the assertion may have failed before a later assumption cut the
+		// native run short (inputs the model leaves open default to zero)
+		for _, l := range failedLabels(r) {
+			if l == rc.Label {
+				return replayOutcome{true, "native assertion failure: " + l}
+			}
+		}
+	}
 	if r.AssumeFailed {
-		return replayOutcome{false, "the model violates a harness assumption natively"}
+		return replayOutcome{false, "the model violates a harness assumption natively at " + r.AssumeAt}
 	}
 	switch rc.Expect {
 	case "assert":
